@@ -199,7 +199,11 @@ func joinErrors(errs []error) string {
 func (u *Uninstall) deleteRelease(rel *release.Release) (kube.ResourceList, string, []error) {
 	var errs []error
 
-	manifests := releaseutil.SplitManifests(rel.Manifest)
+	// The manifest is handed over as one file: SortManifests splits it and walks
+	// the documents in numeric order. Splitting it here and passing the
+	// "manifest-<n>" keys as file names would have them visited in lexical order
+	// ("manifest-10" before "manifest-2"), scrambling resources of the same kind.
+	manifests := map[string]string{"manifest": rel.Manifest}
 	_, files, err := releaseutil.SortManifests(manifests, nil, releaseutil.UninstallOrder)
 	if err != nil {
 		// We could instead just delete everything in no particular order.
